@@ -38,6 +38,8 @@ def run(chk):
     okesc = bool(esc_paths) and all(r["pushes_c"] == 1 or (r["kind"] == "return" and r["ret"] == "Err") for r in esc_paths)
     anyc = [r for r in esc_paths if r["c"] is None or r["c"][0] == "notin"]
     chk.ob("R03.1", "parser:escaped-is-content", okesc and bool(anyc), "after the escape character the tokenized parser does not consume every character as content", site=C.site(pt.body))
+    chk.ob("R03.1", "parser:escape-applies-to-one-character", bool(esc_paths) and all(r["bools"]["escape"][1] == absint.B(False) for r in esc_paths if r["kind"] == "backedge"),
+           "after consuming an escaped character the tokenized parser can stay in the escaped state: the following separator / tag marker would be swallowed as content", site=C.site(pt.body))
     sep_boundary = {x for x, sig in specials.items() if any(s.startswith("sets:") and "escape" not in s for s in sig)}
     sep_tag = {x for x, sig in specials.items() if "starts-tag" in sig}
 
